@@ -994,6 +994,8 @@ class ManifestRecursiveLoader:
                         if e.tag != 'IGNORE':
                             out[fullpath][1].checksums.update(
                                 e.checksums)
+                            # the preserved entry has changed
+                            self.updated_manifests.add(out[fullpath][0])
                         # and drop the duplicate
                         entries_to_remove.append(e)
                     else:
